@@ -4,6 +4,7 @@ package kvcache
 // real kvcache.Causal on the fakeml backend, against a dictionary reference.
 
 import (
+	"crypto/sha256"
 	"encoding/json"
 	"errors"
 	"fmt"
@@ -13,6 +14,7 @@ import (
 	"slices"
 	"sort"
 	"strings"
+	"time"
 
 	"github.com/ollama/ollama/ml"
 	"github.com/ollama/ollama/model/input"
@@ -665,11 +667,12 @@ func ZZVerifC06() {
 	thorough := evid.Thorough()
 	depth := 4
 	if thorough {
-		depth = 6
+		depth = 5
 	}
 	maxStates := 60000
 	if thorough {
-		maxStates = 1500000
+		maxStates = 400000
+		r.SetDeadline(30 * time.Minute)
 	}
 	cfgs := c6Configs(thorough)
 	items := make([]string, len(cfgs))
@@ -684,14 +687,26 @@ func ZZVerifC06() {
 		var ci int
 		fmt.Sscan(item, &ci)
 		cfg := cfgs[ci]
-		seen := map[string]bool{}
+		// the frontier holds histories, not live caches (a level of 10^6 cloned caches does not fit in memory):
+		// a state is rebuilt by replaying its history once and cloned for each successor
+		key := func(fp string) [16]byte {
+			h := sha256.Sum256([]byte(fp))
+			return [16]byte(h[:16])
+		}
+		seen := map[[16]byte]bool{}
 		root := c6New(cfg)
-		seen[root.fingerprint()] = true
-		frontier := []*c6State{root}
-		states := 1
+		seen[key(root.fingerprint())] = true
+		frontier := [][]c6Op{nil}
+		states, nontriv := 1, 0
 		for d := 0; d < depth && len(frontier) > 0; d++ {
-			var next []*c6State
-			for _, st := range frontier {
+			var next [][]c6Op
+			for _, hist := range frontier {
+				st := c6New(cfg)
+				for _, op := range hist {
+					if f := st.apply(op); f != nil {
+						sub.Extra("machinery_errors", []string{fmt.Sprintf("C06: replay of an accepted history fails: %v %v: %s", cfg, hist, f.clause)})
+					}
+				}
 				for _, op := range st.ops() {
 					n := st.clone()
 					f := n.apply(op)
@@ -736,12 +751,11 @@ func ZZVerifC06() {
 						continue // do not explore beyond a violating state
 					}
 					fp := n.fingerprint()
-					if seen[fp] {
+					if seen[key(fp)] {
 						continue
 					}
-					seen[fp] = true
+					seen[key(fp)] = true
 					states++
-					sub.DistinctH("state", evid.Hash(fmt.Sprint(ci)+"#"+fp))
 					nontrivial := n.defrag
 					for _, cell := range n.c.cells {
 						if len(cell.sequences) > 1 {
@@ -754,16 +768,16 @@ func ZZVerifC06() {
 						}
 					}
 					if nontrivial {
-						sub.DistinctH("nontrivial", evid.Hash(fmt.Sprint(ci)+"#"+fp))
+						nontriv++
 					}
 					if sub.WantSample() {
 						sub.Sample(map[string]any{"config": cfg, "history": fmt.Sprint(n.hist)})
 					} else {
 						sub.Sample(nil)
 					}
-					next = append(next, n)
+					next = append(next, n.hist)
 				}
-				if states > maxStates {
+				if states > maxStates || r.Expired() {
 					break
 				}
 			}
@@ -771,8 +785,15 @@ func ZZVerifC06() {
 				sub.NotExhaustive(fmt.Sprintf("config %d: state cap %d reached at depth %d (all shallower depths complete)", ci, maxStates, d+1))
 				break
 			}
+			if r.Expired() {
+				sub.NotExhaustive(fmt.Sprintf("config %d: time budget reached at depth %d (all shallower depths complete)", ci, d+1))
+				break
+			}
 			frontier = next
 		}
+		// states of different configurations are different states: counted per configuration
+		sub.AddDistinct("state", states)
+		sub.AddDistinct("nontrivial", nontriv)
 		sub.Add("traces_validated_against_impl", int64(states))
 		if os.Getenv("VERIF_VERBOSE") != "" {
 			fmt.Fprintf(os.Stderr, "config %d %+v: %d states\n", ci, cfg, states)
